@@ -3,6 +3,7 @@ package main
 import (
 	"bytes"
 	"context"
+	"crypto/tls"
 	"fmt"
 	"math/rand"
 	"net"
@@ -18,6 +19,7 @@ import (
 	"kvharness/internal/drv"
 	"kvharness/internal/gen"
 	"kvharness/internal/rec"
+	"kvharness/internal/tlsm"
 )
 
 // ---- C12: the library under the race detector -------------------------------------------------------------
@@ -152,6 +154,102 @@ func stressBareServer(nConn int) error {
 	}
 }
 
+// stressHandshakeShutdown: a TLS-serving Server with one established session and `pending` accepted connections whose
+// peers have not started their TLS handshake yet; Shutdown is issued, the established session ends, and only then the pending
+// peers handshake, send one request and leave. Everything the Server does to track a session (its WaitGroup, its done channel)
+// is exercised while Shutdown is already waiting. Besides what the race detector says, Shutdown must not have returned while
+// an accepted connection was still open: a session that registers itself only after Shutdown began waiting is the
+// documented sync.WaitGroup misuse (Add from zero concurrent with Wait).
+func stressHandshakeShutdown(pending int) error {
+	ca := tlsm.NewCA("c12-ca")
+	serverCert := tlsm.Leaf(ca, tlsm.LeafOpts{Host: "kmip.test"})
+	clientCert := tlsm.Leaf(ca, tlsm.LeafOpts{Host: "client.test", Client: true})
+	cfg := &tls.Config{Certificates: []tls.Certificate{serverCert}, ClientCAs: ca.Pool}
+	kmip.DefaultServerTLSConfig(cfg)
+	s := &kmip.Server{TLSConfig: cfg}
+	l := rec.NewListener()
+	init := make(chan struct{})
+	ret := make(chan error, 1)
+	go func() { ret <- s.Serve(l, init) }()
+	<-init
+	type peer struct {
+		rc *rec.Conn
+		cc *rec.MemConn
+		tc *tls.Conn
+	}
+	var peers []peer
+	for i := 0; i <= pending; i++ {
+		sc, cc := rec.Pipe()
+		rc := rec.NewConn(sc, i+1)
+		l.Push(rec.AcceptStep{Conn: tls.Server(rc, cfg)})
+		_ = cc.SetDeadline(time.Now().Add(10 * time.Second))
+		peers = append(peers, peer{rc, cc, tls.Client(cc, &tls.Config{RootCAs: ca.Pool, ServerName: "kmip.test", Certificates: []tls.Certificate{clientCert}})})
+	}
+	exchange := func(p peer) error {
+		req := kmip.Request{Header: kmip.RequestHeader{Version: kmip.ProtocolVersion{Major: 1, Minor: 4}, BatchCount: 1},
+			BatchItems: []kmip.RequestBatchItem{{Operation: kmip.OPERATION_DISCOVER_VERSIONS, RequestPayload: kmip.DiscoverVersionsRequest{}}}}
+		if err := kmip.NewEncoder(p.tc).Encode(&req); err != nil {
+			return err
+		}
+		var resp kmip.Response
+		return kmip.NewDecoder(p.tc).Decode(&resp)
+	}
+	if err := peers[0].tc.Handshake(); err != nil {
+		return fmt.Errorf("handshake of the first client: %v", err)
+	}
+	if err := exchange(peers[0]); err != nil {
+		return fmt.Errorf("first client not served: %v", err)
+	}
+	// all connections have been accepted before Shutdown starts
+	for l.Pending() > 0 {
+		time.Sleep(time.Millisecond)
+	}
+	time.Sleep(5 * time.Millisecond)
+	ctx, cancel := context.WithTimeout(context.Background(), 20*time.Second)
+	defer cancel()
+	sdDone := make(chan error, 1)
+	go func() { sdDone <- s.Shutdown(ctx) }()
+	time.Sleep(10 * time.Millisecond)
+	peers[0].tc.Close()
+	peers[0].cc.Close()
+	time.Sleep(20 * time.Millisecond)
+	var problem error
+	select {
+	case e := <-sdDone:
+		open := 0
+		for _, p := range peers[1:] {
+			select {
+			case <-p.rc.Closed():
+			default:
+				open++
+			}
+		}
+		if open > 0 {
+			problem = fmt.Errorf("Shutdown returned (%v) while %d accepted connection(s) were still open in their TLS handshake: their sessions were not registered with the Server when Shutdown began to wait", e, open)
+		}
+		sdDone <- e
+	default:
+	}
+	var wg sync.WaitGroup
+	for _, p := range peers[1:] {
+		wg.Add(1)
+		go func(p peer) {
+			defer wg.Done()
+			if p.tc.Handshake() == nil {
+				_ = exchange(p)
+			}
+			p.tc.Close()
+			p.cc.Close()
+		}(p)
+	}
+	wg.Wait()
+	if e := <-sdDone; e != nil && problem == nil {
+		problem = fmt.Errorf("shutdown: %v", e)
+	}
+	<-ret
+	return problem
+}
+
 // yieldingWriter hands the processor to other goroutines inside every Write, the way a net.Conn with a slow peer does: anything
 // an Encoder still refers to while it writes is exposed to whatever other Encoders do meanwhile
 type yieldingWriter struct{ buf bytes.Buffer }
@@ -230,7 +328,7 @@ func runC12(r *Result, d *drv.Driver, tier string, seed int64, replay string) {
 	if tier == "thorough" {
 		rounds, nConn, nReq, codecN = 40, 24, 60, 2000
 	}
-	r.Rule = fmt.Sprintf("the real library under Go's race detector (kvrun built with -race=%v): %d rounds of %d concurrent sessions x %d two-item requests (auth callbacks, a panicking handler, the built-in Discover Versions) with Shutdown issued at a random moment; the same number of rounds of 8 connections sending their first requests simultaneously to a zero-value Server (no Handle, no callbacks); "+
+	r.Rule = fmt.Sprintf("the real library under Go's race detector (kvrun built with -race=%v): %d rounds of %d concurrent sessions x %d two-item requests (auth callbacks, a panicking handler, the built-in Discover Versions) with Shutdown issued at a random moment; the same number of rounds of 8 connections sending their first requests simultaneously to a zero-value Server (no Handle, no callbacks); the same number of rounds of a TLS-serving Server shut down while one session is established and 1..3 accepted connections have not begun their handshake; "+
 		"16 goroutines encoding/decoding overlapping types through independent Encoders/Decoders; the C11 schedule replays and a batch of C07 session scripts, all in one process. Every detector report is a finding. distinct = one per workload round", raceEnabled, rounds, nConn, nReq)
 	rng := rand.New(rand.NewSource(seed))
 	total := 0
@@ -248,6 +346,12 @@ func runC12(r *Result, d *drv.Driver, tier string, seed int64, replay string) {
 		r.eval(fmt.Sprintf("bare-server-round-%d", i), true)
 		if err := stressBareServer(8); err != nil {
 			r.find(Finding{Kind: "violation", What: "a zero-value Server (no Handle, no callbacks) did not serve concurrent first requests correctly", Input: fmt.Sprintf("round %d", i), Actual: err.Error()})
+		}
+	}
+	for i := 0; i < rounds; i++ {
+		r.eval(fmt.Sprintf("handshake-during-shutdown-round-%d", i), true)
+		if err := stressHandshakeShutdown(1 + i%3); err != nil {
+			r.find(Finding{Kind: "violation", What: "Shutdown of a TLS-serving Server did not account for connections accepted before it but still in their TLS handshake (session registered after the wait began)", Input: fmt.Sprintf("round %d: one established session, %d accepted connection(s) not yet handshaking, Shutdown, established session ends, pending peers handshake afterwards", i, 1+i%3), Actual: err.Error()})
 		}
 	}
 	stressCodec(seed, 16, codecN)
